@@ -41,6 +41,13 @@ def scenarios(seed, tier):
                     s['amap'][a['name']] = cand
         npool = r2.sample(ADV, min(len(ADV), len(s['nodes']))) + ['y%d' % k for k in range(len(s['nodes']))]
         s['nmap'] = {nm: npool[k] for k, nm in enumerate(s['nodes'])}
+        for a in s['assets']:
+            if a['type'] == 'StructuredAsset' and r2.random() < 0.6:
+                if 'start' not in a['args'] and 'end' not in a['args']:
+                    gen.put_window(a['args'], gen.window(r2, s['grid'], kinds=['inside', 'start_only', 'end_only', 'straddle_end']))
+                for ia in a.get('inner', [])[:1]:
+                    if 'start' not in ia['args'] and 'end' not in ia['args'] and ia['type'] != 'OrderBook':
+                        gen.put_window(ia['args'], gen.window(r2, s['grid'], kinds=['inside', 'start_only', 'end_only']))
         perm = list(range(len(s['assets'])))
         r2.shuffle(perm)
         s['perm'] = perm
@@ -88,6 +95,14 @@ def run_case(scn, drv):
     variants.append(('permute', sp_, list(scn['perm'])))
     both = scen.rename_scenario(sp_, scn['amap'], scn['nmap'])
     variants.append(('rename+permute', both, list(scn['perm'])))
+    if any(a['type'] == 'StructuredAsset' and len(a.get('inner', [])) >= 2 for a in base['assets']):
+        # the order of the assets INSIDE a structured asset is as irrelevant as the order in the portfolio (value only: the
+        # variable layout inside the wrapper changes)
+        si = copy.deepcopy(base)
+        for a in si['assets']:
+            if a['type'] == 'StructuredAsset':
+                a['inner'] = list(reversed(a['inner']))
+        variants.append(('permute-inner', si, None))
 
     def viol(msg, **facts):
         r['violations'].append({'oracle': 'names_and_order', 'detail': msg, 'facts': facts})
@@ -113,6 +128,8 @@ def run_case(scn, drv):
         tol = 2e-6 * max(1.0, abs(V))
         if abs(Vv - V) > tol:
             viol('%s: optimal value %.8g, original %.8g' % (tag, Vv, V), variant=tag, what='value')
+            continue
+        if order is None:
             continue
         x = transport_back(rv, rec, order)
         if x is None:
